@@ -76,6 +76,37 @@ func (e *Engine) VCompact(mode string) (groups int, ok bool, err error) {
 	return groups, ok, nil
 }
 
+// VCompactFullInFlight starts a full compaction of all current TSM files the
+// way Engine.compactFull does - as a goroutine registered in the engine's
+// compaction wait group, so that disableLevelCompactions(true) waits for it and
+// Compactor.DisableCompactions aborts it - and returns a channel that is closed
+// when it has ended. It returns nil when compactions are disabled.
+func (e *Engine) VCompactFullInFlight() <-chan struct{} {
+	e.mu.RLock()
+	wg := e.wg
+	e.mu.RUnlock()
+	if wg == nil {
+		return nil
+	}
+	var names []string
+	for _, f := range e.FileStore.Files() {
+		names = append(names, f.Path())
+	}
+	sort.Strings(names)
+	s := e.fullCompactionStrategy(CompactionGroup(names), false)
+	if s == nil {
+		return nil
+	}
+	done := make(chan struct{})
+	wg.Add(1)
+	go func() {
+		defer wg.Done()
+		defer close(done)
+		s.Apply()
+	}()
+	return done
+}
+
 // VLayout describes the physical layout of the shard: per TSM file its keys,
 // blocks (min, max, count) and tombstones, plus cache and snapshot sizes.
 func (e *Engine) VLayout() string {
